@@ -49,6 +49,9 @@ Proof.
   apply eq_true_iff_eq. rewrite mem_nat_In, in_seq, andb_true_iff, Nat.leb_le, Nat.ltb_lt. reflexivity.
 Qed.
 
+Lemma mem_nat_seq0 x k : mem_nat x (seq 0 k) = (x <? k).
+Proof. rewrite mem_nat_seq. cbn [Nat.leb Nat.add andb]. reflexivity. Qed.
+
 Lemma py_idx_ok {A} (l : list A) i d : i < length l -> py_idx l i = SOk (nth i l d).
 Proof.
   intros H. unfold py_idx. destruct (nth_error l i) as [x|] eqn:E.
